@@ -138,6 +138,17 @@ def _apply_op(g, op, env):
   elif k == "setfield":
     l = find_by_text(g, op[1])
     l.set(op[2], op[3])
+  elif k == "conv":
+    # converting a GFA1 Gfa (documented to give the unnamed links the IDs
+    # the E lines get); the converted Gfa is dropped, the source goes on
+    g.to_gfa2_s()
+  elif k == "addshare":
+    # a new line built through the API whose field value is the VERY OBJECT
+    # another line of the Gfa holds (new.sid1 = old.sid1), then added
+    donor = find_by_text(g, op[1])
+    n = gfapy.Line(op[2], version=g.version, vlevel=g.vlevel)
+    n.set(op[3], donor.get(op[3]))
+    g.add_line(n)
   elif k == "setnone":
     # the other documented spelling of removing a tag: assigning None
     l = find_by_text(g, op[1])
@@ -191,6 +202,12 @@ def op_to_py(op):
   if k == "setfield":
     return "[l for l in g.lines if str(l) == {!r}][0].set({!r}, {!r})".format(
         op[1], op[2], op[3])
+  if k == "conv":
+    return "g.to_gfa2_s()"
+  if k == "addshare":
+    return ("n = gfapy.Line({!r}, version=g.version); n.set({!r}, [l for l in "
+            "g.lines if str(l) == {!r}][0].get({!r})); g.add_line(n)").format(
+                op[2], op[3], op[1], op[3])
   if k == "setnone":
     return "[l for l in g.lines if str(l) == {!r}][0].set({!r}, None)".format(
         op[1], op[2])
